@@ -157,6 +157,10 @@ func (d *Def) makeDefineArgVariables(
 			return argVariables, false, err
 		}
 
+		if argT == nil {
+			break
+		}
+
 		if argT.IsTargetIdentifier("end") {
 			p.Unget()
 			return argVariables, false, err
@@ -690,7 +694,7 @@ func (d *Def) Evaluation(
 	methodT := d.makeDefineMethodT(p, ctx, method, args, returnT, isBlockGiven)
 
 	// def hoge= || def [] || def []=
-	if method[len(method)-1] == '=' || method == "[]" || method == "[]=" {
+	if (method != "" && method[len(method)-1] == '=') || method == "[]" || method == "[]=" {
 		for _, arg := range args {
 			base.SetValueT(
 				methodT.DefinedFrame,
